@@ -11,9 +11,17 @@ Two layers (see notes/C06.md):
   runs agree; Jacobi and Gauss–Seidel sweeps (any number of disciplines, any order, self-coupled disciplines
   included) are contractions with the same fixed points; relaxation keeps the fixed points; Newton's step is
   exact on affine systems.
-Helper lemmas live in `Lemmas/C06Loop.lean` and `Analysis/C06.lean`.
+* theorems about *what is resolved* and about *compositions* (`Lemmas/C06Chain.lean`): the strong couplings of a
+  group are exactly the variables it reads and writes (a variable a discipline only feeds back to itself
+  included); a stop test on a set of variables that covers everything the disciplines read controls the
+  re-execution defect (and one that misses a private self-coupling does not); a chain of components each of
+  which solves its own equations, in the order of the coupling graph, solves the whole system, and a component
+  executed once solves its equations only if it does not read its own outputs (`MDAChain.__requires_mda`);
+  the settings of a composed MDA prevail on the ones given for its inner MDAs in whichever form.
+Helper lemmas live in `Lemmas/C06Loop.lean`, `Lemmas/C06Chain.lean` and `Analysis/C06.lean`.
 -/
 import GemseoVerif.Lemmas.C06Loop
+import GemseoVerif.Lemmas.C06Chain
 import GemseoVerif.Analysis.C06
 import Mathlib.Analysis.SpecialFunctions.Pow.NNReal
 import Mathlib.Tactic.NormNum
@@ -269,5 +277,191 @@ theorem newton_affine_one_step {𝕜 W : Type*} [Field 𝕜] [AddCommGroup W] [M
 /-- Non-vacuity: scalar system `y = y/2 + 1` from `y = 0`: residual `1`, step `2`, solution `2`. -/
 example : (LinearMap.lsmul ℚ ℚ (1 / 2)) ((0 : ℚ) + 2) + 1 = 0 + 2 :=
   newton_affine_one_step (LinearMap.lsmul ℚ ℚ (1 / 2)) 1 0 2 (by simp; norm_num)
+
+/-! ### What an MDA resolves -/
+
+/-- **Specification of the strong couplings of a group** (`CouplingStructure._compute_strong_couplings` as
+    modelled by `strongCouplingVars`): a variable is resolved iff some discipline of the group reads it and some
+    discipline of the group writes it. -/
+theorem strong_couplings_spec {nvars : Nat} {reads writes : List (List Nat)} {v : Nat} :
+    v ∈ strongCouplingVars nvars reads writes ↔
+      v < nvars ∧ (∃ r ∈ reads, v ∈ r) ∧ (∃ w ∈ writes, v ∈ w) :=
+  mem_strongCouplingVars
+
+/-- In particular a variable that ONE discipline of the group both reads and writes — a private self-coupling,
+    whatever the other couplings of that discipline are and whoever else reads it — is resolved. -/
+theorem private_self_coupling_is_resolved {nvars : Nat} (reads writes : List (List Nat)) (d v : Nat)
+    (hv : v < nvars) (hd : d < reads.length) (hd' : d < writes.length)
+    (hr : v ∈ reads[d]) (hw : v ∈ writes[d]) : v ∈ strongCouplingVars nvars reads writes :=
+  mem_strongCouplingVars.mpr ⟨hv, ⟨reads[d], List.getElem_mem hd, hr⟩, ⟨writes[d], List.getElem_mem hd', hw⟩⟩
+
+/-- Non-vacuity: `D0` reads `{s, y2}` and writes `{s, y1}`, `D1` reads `{y1}` and writes `{y2}` (variables
+    `s = 0`, `y1 = 1`, `y2 = 2`, `x = 3`): the private `s` is resolved with the couplings of the cycle. -/
+example : strongCouplingVars 4 [[3, 0, 2], [1]] [[0, 1], [2]] = [0, 1, 2] := by decide
+
+/-- **Exact form**: if the last sweep changed nothing on a monitored set that covers everything the disciplines
+    read, re-executing any discipline on the returned data `fun j => f j y` reproduces its returned output. -/
+theorem monitored_set_reexecution {ι V : Type*} (f : ι → (ι → V) → V) (reads : ι → Set ι)
+    (hreads : ∀ i y z, (∀ j ∈ reads i, y j = z j) → f i y = f i z) (mon : Set ι)
+    (hcover : ∀ i, ∀ j ∈ reads i, j ∈ mon) (y : ι → V) (hstop : ∀ j ∈ mon, f j y = y j) :
+    ∀ i, f i (fun j => f j y) = f i y :=
+  Chain.monitored_cover_exact f reads hreads mon hcover y hstop
+
+/-- The covering hypothesis cannot be dropped: a monitored set that misses a variable a discipline feeds back to
+    itself passes the test on data that re-execution does not reproduce. -/
+theorem monitored_set_must_cover_self_couplings :
+    ∃ (f : Bool → (Bool → ℚ) → ℚ) (y : Bool → ℚ),
+      (∀ j ∈ ({true} : Set Bool), f j y = y j) ∧ f false (fun j => f j y) ≠ f false y :=
+  Chain.unmonitored_self_coupling_fails
+
+/-- **Quantitative form on the executable model** (any affine system, any resolved set, any iterate):
+    a residual `≤ ε` on resolved components covering every component some row reads bounds the re-execution
+    defect of every row by `(Σⱼ|coefⱼ|)·ε`. -/
+theorem reexecution_bound_affine (s : Sys) (res : List Nat) (y : Vec) (ε : Rat) (hε : 0 ≤ ε)
+    (hcover : ∀ r ∈ s.rows, ∀ j, r.coefs.getD j 0 ≠ 0 → j ∈ res)
+    (hstop : ∀ t ∈ residOn res y (jacobiSweep s y), |t| ≤ ε) :
+    ∀ r ∈ s.rows, |evalRow r (jacobiSweep s y) - evalRow r y| ≤ rsum (r.coefs.map (|·|)) * ε :=
+  reexecution_le_of_monitored s res y ε hε hcover hstop
+
+/-- **End to end for the Jacobi and Newton models without residual scaling**: a run that ends by the residual
+    test with resolved components covering what the rows read returns `jacobiSweep y` whose rows, re-executed on
+    the returned data, move by at most `(Σⱼ|coefⱼ|)·tol`. -/
+theorem stop_no_scaling_reexecution (s : Sys) (c : Cfg) (fuel : Nat) (st : MState) (start : Vec)
+    (halgo : c.algo ≠ .gaussSeidel) (hsc : c.scaling = .noScaling) (htol : 0 ≤ c.tol)
+    (hcover : ∀ r ∈ s.rows, ∀ j, r.coefs.getD j 0 ≠ 0 → j ∈ c.res)
+    (h : (execute s c fuel st start).outcome = .converged) :
+    ∃ y : Vec, (execute s c fuel st start).data = jacobiSweep s y ∧
+      ∀ r ∈ s.rows, |evalRow r (jacobiSweep s y) - evalRow r y| ≤ rsum (r.coefs.map (|·|)) * c.tol := by
+  obtain ⟨y, e1, e2⟩ := stop_no_scaling s c fuel st start hsc h
+  have hsw : sweepOf s c = jacobiSweep s := by
+    unfold sweepOf
+    cases hc : c.algo with
+    | gaussSeidel => exact absurd hc halgo
+    | jacobi => rfl
+    | newton => rfl
+  rw [hsw] at e1 e2
+  refine ⟨y, e1, reexecution_le_of_monitored s c.res y c.tol htol hcover ?_⟩
+  intro t ht
+  have h1 : |t| * |t| ≤ c.tol * c.tol := by
+    rw [abs_mul_abs_self]
+    exact le_trans (sq_le_normSq _ t ht) e2
+  by_contra hlt
+  rw [not_le] at hlt
+  nlinarith [abs_nonneg t]
+
+/-- Non-vacuity: the hypotheses of `stop_no_scaling_reexecution` hold on a system whose first discipline feeds
+    a private variable (row 0, slow) back to itself inside a 2-discipline cycle (rows 1, 2). -/
+example :
+    let sys : Sys := ⟨[⟨1, [1/2, 0, 1/8]⟩, ⟨2, [0, 0, 1/16]⟩, ⟨2, [0, -1/16, 0]⟩], [[0, 1], [2]]⟩
+    let c : Cfg := ⟨.jacobi, [0, 1, 2], [[0], [1], [2]], [0, 1, 2], 1/64, 30, .noScaling, 1, .none, false⟩
+    (execute sys c 40 {} [0, 0, 0]).outcome = .converged ∧
+    (∀ r ∈ sys.rows, ∀ j, r.coefs.getD j 0 ≠ 0 → j ∈ c.res) := by
+  refine ⟨by decide +kernel, ?_⟩
+  intro r hr j hj
+  simp only [List.mem_cons, List.not_mem_nil, or_false] at hr
+  rcases hr with rfl | rfl | rfl <;>
+    (rcases j with _ | _ | _ | j <;> simp_all)
+
+/-! ### Compositions -/
+
+/-- **A chain of components that each solve their own equations, executed in the order of the coupling
+    graph, solves the whole system** (any variables, values and discipline maps; `R i a b` = "equation `i`
+    holds": equality, or `dist a b ≤ ε i` for converged inner MDAs — what a component leaves is not modified by
+    the later ones). -/
+theorem chain_of_mdas_fixed_point {ι V : Type*} (f : ι → (ι → V) → V) (reads : ι → Set ι)
+    (R : ι → V → V → Prop) (hreads : ∀ i y z, (∀ j ∈ reads i, y j = z j) → f i y = f i z)
+    (steps : List (Chain.Step ι V)) (y : ι → V) (hok : Chain.ChainOK f reads R ∅ steps) :
+    ∀ i, (∃ st ∈ steps, i ∈ st.owns) → R i (f i (Chain.runAll steps y)) (Chain.runAll steps y i) := by
+  intro i hi
+  exact Chain.chain_solves f reads R hreads steps ∅ y hok (fun i hi => absurd hi (Set.notMem_empty i)) i (Or.inr hi)
+
+/-- **When a component may be executed only once**: a process that reads none of its own outputs, executed once,
+    returns data that satisfy its equations exactly ... -/
+theorem single_execution_solves {ι V : Type*} (f : ι → (ι → V) → V) (reads : ι → Set ι)
+    (hreads : ∀ i y z, (∀ j ∈ reads i, y j = z j) → f i y = f i z) (owns : Set ι)
+    (hno : ∀ i ∈ owns, ∀ j ∈ reads i, j ∉ owns) (y : ι → V) :
+    ∀ i ∈ owns, f i (Chain.runOnce f owns y) = Chain.runOnce f owns y i :=
+  Chain.runOnce_solves f reads hreads owns hno y
+
+/-- ... and a self-coupled process does not: it must be wrapped in an MDA (or be one). -/
+theorem self_coupled_needs_mda :
+    ∃ (f : Unit → (Unit → ℚ) → ℚ) (y : Unit → ℚ),
+      f () (Chain.runOnce f Set.univ y) ≠ Chain.runOnce f Set.univ y () :=
+  Chain.runOnce_self_reading_fails
+
+/-- `MDAChain.__requires_mda` of the model: a component is executed as is exactly when it is a single discipline
+    that is not self-coupled, or a self-coupled MDA. -/
+theorem requiresMda_eq_false_iff (g : Group) :
+    requiresMda g = false ↔
+      g.discs.length ≤ 1 ∧ (g.discs.length = 1 → g.selfCoupled = false ∨ g.isMda = true) := by
+  unfold requiresMda
+  cases hs : g.selfCoupled <;> cases hm : g.isMda <;> simp <;> omega
+
+/-- Non-vacuity of the chain on the executable model: a 2-discipline cycle (rows 0, 1), then a self-coupled
+    discipline (row 2), then a weakly coupled one (row 3), inner Newton MDAs: the chain returns the exact
+    solution `[2, 2, 4, 4]`; had the self-coupled discipline been executed once (flagged as an MDA of its own), row 2
+    would not hold. -/
+example :
+    let sys : Sys := ⟨[⟨1, [0, 1/2, 0, 0]⟩, ⟨1, [1/2, 0, 0, 0]⟩, ⟨0, [1, 0, 1/2, 0]⟩, ⟨0, [0, 0, 1, 0]⟩],
+                      [[0], [1], [2], [3]]⟩
+    let cfg (res : List Nat) : Cfg := ⟨.newton, res, res.map (fun _ => [0]), res, 1/1024, 30, .noScaling, 1, .none, false⟩
+    let g1 : Group := ⟨[[0], [1]], false, false, cfg [0, 1]⟩
+    let g2 : Group := ⟨[[2]], true, false, cfg [2]⟩
+    let g2' : Group := ⟨[[2]], true, true, cfg [2]⟩
+    let g3 : Group := ⟨[[3]], false, false, cfg []⟩
+    (chainExecute sys [g1, g2, g3] 40 [0, 0, 0, 0]).1 = [2, 2, 4, 4] ∧
+    (chainExecute sys [g1, g2', g3] 40 [0, 0, 0, 0]).1 = [2, 2, 2, 2] := by
+  decide +kernel
+
+/-- Non-vacuity of `chain_of_mdas_fixed_point`: `f 0 = 1`, `f 1 y = y 0 + 1`, each executed once in that order. -/
+example :
+    let f : Bool → (Bool → ℚ) → ℚ := fun i y => if i then y false + 1 else 1
+    let steps : List (Chain.Step Bool ℚ) :=
+      [⟨{false}, Chain.runOnce f {false}⟩, ⟨{true}, Chain.runOnce f {true}⟩]
+    ∀ y : Bool → ℚ, ∀ i, f i (Chain.runAll steps y) = Chain.runAll steps y i := by
+  intro f steps y i
+  let reads : Bool → Set Bool := fun i => if i then {false} else ∅
+  have hreads : ∀ i y z, (∀ j ∈ reads i, y j = z j) → f i y = f i z := by
+    intro i y z h
+    cases i
+    · rfl
+    · show y false + 1 = z false + 1
+      rw [h false (by simp [reads])]
+  have hok : Chain.ChainOK f reads (fun _ a b => a = b) ∅ steps := by
+    refine ⟨fun y j hj => Chain.runOnce_frame f _ y j hj,
+      fun y i hi => Chain.runOnce_solves f reads hreads _ (by
+        intro i hi j hj; have : i = false := hi; subst this; simp [reads] at hj) y i hi,
+      fun i hi => absurd hi (Set.notMem_empty i), ?_⟩
+    refine ⟨fun y j hj => Chain.runOnce_frame f _ y j hj,
+      fun y i hi => Chain.runOnce_solves f reads hreads _ (by
+        intro i hi j hj; have : i = true := hi; subst this
+        have : j = false := by simpa [reads] using hj
+        subst this; simp) y i hi,
+      ?_, trivial⟩
+    intro i hi
+    have : i = false := by simpa using hi
+    subst this
+    simp [reads]
+  refine chain_of_mdas_fixed_point f reads (fun _ a b => a = b) hreads steps y hok i ?_
+  cases i
+  · exact ⟨_, List.mem_cons_self .., rfl⟩
+  · exact ⟨_, List.mem_cons_of_mem _ (List.mem_cons_self ..), rfl⟩
+
+/-- **The settings of the composed MDA prevail on the settings given for its inner MDAs**, for every
+    `BaseMDASettings` field of the model and whatever is given (a dictionary with a few keys, or the full content
+    of a Pydantic model with its defaults). -/
+theorem inner_settings_chain_prevails (chain given : Settings) (k : String) (hk : k ∈ baseFields) (v : Rat)
+    (h : chain.get? k = some v) : (innerSettings chain given).get? k = some v :=
+  innerSettings_chain_prevails chain given k hk v h
+
+/-- Non-vacuity: the chain asks for `tolerance = 2⁻³⁰`, `max_mda_iter = 100`; the inner settings are given as a
+    model holding the defaults `tolerance = 10⁻⁶`, `max_mda_iter = 20` besides the relaxation factor. -/
+example :
+    let chain : Settings := [("tolerance", 1/1073741824), ("max_mda_iter", 100), ("warm_start", 0)]
+    let given : Settings := [("over_relaxation_factor", 9/10), ("tolerance", 1/1000000), ("max_mda_iter", 20), ("warm_start", 0)]
+    (innerSettings chain given).get? "tolerance" = some (1/1073741824) ∧
+    (innerSettings chain given).get? "max_mda_iter" = some 100 ∧
+    (innerSettings chain given).get? "over_relaxation_factor" = some (9/10) := by
+  decide +kernel
 
 end GV.C06
